@@ -102,6 +102,8 @@ Conforms(r) == LET o == r.obs p == r.pred IN
     /\ (p.outSt = "new") <=> (o.exit = 0 /\ r.sc.out # "stdout" /\ ~Informational(r.sc))
     /\ (p.srcOnStdout = "full") <=> (o.exit = 0 /\ r.sc.out = "stdout" /\ ~Informational(r.sc))
     /\ p.version <=> o.versionPrinted
+    \* a scenario built to fail for a particular reason fails for that reason (otherwise it shows nothing)
+    /\ (o.exit # 0 /\ r.sc.mod # "tidy") => o.causeSeen
 
 Check(name, ok) == IF ok THEN {} ELSE {name}
 Verdict(r) == Check("C03", Current(r)) \cup Check("C04", Current(r)) \cup Check("C08", Current(r)) \cup Check("C07", C07(r)) \cup Check("C14", C14(r)) \cup Check("C15", C15(r)) \cup Check("C16", C16(r)) \cup Check("C17", C17(r)) \cup Check("C18", C18(r)) \cup Check("C19", C19(r))
